@@ -317,6 +317,7 @@ def mon_ledger(h, obs, prop):
     ref = Ref()
     unsynced = False     # after an un-journaled Add or an op the reference cannot follow we resync on dumps only
     after_rollback = False
+    after_refused = False
 
     def hit(p, fp, msg, detail=None):
         if p == prop:
@@ -427,6 +428,7 @@ def mon_ledger(h, obs, prop):
                     dirty_keys, added_keys = set(), set()
                     ref.journal, ref.snaps = [], []
             else:
+                after_refused = True      # "refused and modifies nothing": the reads that follow must still see the pre-state
                 expect_refuse = t > hi or t < lo
                 if not expect_refuse:
                     hit("C12", f"C12/rollback-refused/{o.replace(' ', '-')}", f"rollback to {t} at height {hi} (window [{lo},{hi}]) refused: {o}", op)
@@ -441,9 +443,11 @@ def mon_ledger(h, obs, prop):
             if got != want:
                 emp = (want == "" or got == "")
                 addk = (a, k) in added_keys
-                p = "C12" if after_rollback and prop == "C12" else "C13"
+                p = "C12" if (after_rollback or after_refused) and prop == "C12" else "C13"
                 if emp and (want or "") == (got or ""):
                     hit(p, f"{p}/empty-value-not-persisted", f"get {a} {k} returned {o!r} but the latest write is {want!r} (nil and empty are conflated)", op)
+                elif after_refused and p == "C12":
+                    hit(p, "C12/refused-rollback-modified-state/value", f"after a refused rollback get {a} {k} returned {o!r} but the state before the rollback had {want!r}", op)
                 else:
                     kind = "after-add" if addk else "value"
                     hit(p, f"{p}/read-not-latest-write/{kind}", f"get {a} {k} returned {o!r} but the latest write is {want!r}", op)
@@ -452,15 +456,21 @@ def mon_ledger(h, obs, prop):
             d = ref.bal if k0 == "bal" else ref.nonce
             want = d.get(ws[1], 0)
             if o.lstrip("-").isdigit() and int(o) != want:
-                p = "C12" if after_rollback and prop == "C12" else "C13"
-                hit(p, f"{p}/read-not-latest-write/{k0}", f"{k0} {ws[1]} returned {o} but the latest write is {want}", op)
+                p = "C12" if (after_rollback or after_refused) and prop == "C12" else "C13"
+                if after_refused and p == "C12":
+                    hit(p, f"C12/refused-rollback-modified-state/{k0}", f"after a refused rollback {k0} {ws[1]} returned {o} but the state before the rollback had {want}", op)
+                else:
+                    hit(p, f"{p}/read-not-latest-write/{k0}", f"{k0} {ws[1]} returned {o} but the latest write is {want}", op)
                 d[ws[1]] = int(o)
         elif k0 == "code":
             want = ref.code.get(ws[1])
             got = None if o == "-" else o
             if got != want:
-                p = "C12" if after_rollback and prop == "C12" else "C13"
-                hit(p, f"{p}/read-not-latest-write/code", f"code {ws[1]} returned {o!r} but the latest write is {want!r}", op)
+                p = "C12" if (after_rollback or after_refused) and prop == "C12" else "C13"
+                if after_refused and p == "C12":
+                    hit(p, "C12/refused-rollback-modified-state/code", f"after a refused rollback code {ws[1]} returned {o!r} but the state before the rollback had {want!r}", op)
+                else:
+                    hit(p, f"{p}/read-not-latest-write/code", f"code {ws[1]} returned {o!r} but the latest write is {want!r}", op)
                 ref.code[ws[1]] = got
         elif k0 == "query":
             a, pfx = ws[1], ("" if ws[2] == "~" else ws[2])
@@ -483,6 +493,7 @@ def mon_ledger(h, obs, prop):
                     hit("C13", f"C13/query-not-exact/{kind}", f"query {a} {pfx!r} returned {got} but the live values are {want}", op)
         if k0 in ("flush",):
             after_rollback = False
+            after_refused = False
     return hits
 
 
